@@ -358,3 +358,39 @@ mutant("M46c-overwrite", ["C09", "C06"], "CREATE-MODE-1", (STORE_V3, "          
 mutant("M46d-no-fallback", ["C09", "C06"], "CREATE-MODE-1", (STORE_V3, "        except zarr.errors.ContainsArrayError as e:\n            if mode == \"a\":\n                return zarr.open_array(store=store, path=path)  # type: ignore[arg-type]\n            raise e", "        except zarr.errors.ContainsArrayError as e:\n            raise e"))
 mutant("M42-write-empty-chunks-false", ["C09"], "ZARR-CONFIG-1", (STORE_V3, "\"array.write_empty_chunks\": True,", "\"array.write_empty_chunks\": False,"))
 benign("B-completeness-eq-style", ["C09"], (PLAN, "                if target.ndim == 0 or target.nchunks_initialized != target.nchunks:\n                    return False", "                if target.ndim == 0:\n                    return False\n                if target.nchunks_initialized == target.nchunks:\n                    continue\n                return False"))
+
+# ---------------------------------------------------------------- C10 / C20 / C12
+mutant(
+    "M60-rechunk-retargets-in-place",
+    ["C10", "C12"],
+    "OWN-MUT-1",
+    (OPS, "    out = x\n    for copy_chunks, target_chunks in _rechunk_plan(", "    out = x\n    x._zarray = x._zarray\n    for copy_chunks, target_chunks in _rechunk_plan("),
+)
+mutant(
+    "M60b-op-mutated-by-optimizer",
+    ["C10", "C02"],
+    "OWN-MUT-1",
+    (OPT, "    fused_primitive_op = fuse_multiple(primitive_op, *predecessor_primitive_ops)\n", "    fused_primitive_op = fuse_multiple(primitive_op, *predecessor_primitive_ops)\n    primitive_op.fusable_with_predecessors = False\n"),
+)
+mutant(
+    "M60c-reads-map-updated-in-place",
+    ["C10", "C02"],
+    "OWN-MUT-1",
+    (PBW, "    read_proxies = dict(bw_spec.reads_map)\n    for bws in predecessor_bw_specs:\n        read_proxies.update(bws.reads_map)", "    read_proxies = bw_spec.reads_map\n    for bws in predecessor_bw_specs:\n        bw_spec.reads_map.update(bws.reads_map)"),
+)
+mutant("M17-fuse-no-copy", ["C10", "C02"], "COPY-MUT-1", (OPT, "    fused_dag = dag.copy()\n", "    fused_dag = dag\n"))
+mutant("M18-finalize-no-copy", ["C10", "C02"], "COPY-MUT-1", (PLAN, "        dag = dag.copy()\n        if callable(compile_function):", "        if callable(compile_function):"))
+mutant("M18b-simple-optimize-no-copy", ["C10", "C02"], "COPY-MUT-1", (OPT, "    dag = dag.copy()\n    nodes = {n: d for (n, d) in dag.nodes(data=True)}\n\n    def can_fuse(n):", "    nodes = {n: d for (n, d) in dag.nodes(data=True)}\n\n    def can_fuse(n):"))
+mutant("M18c-visualize-no-copy", ["C10"], "COPY-MUT-1", (PLAN, "        dag = self.dag.copy()  # make a copy since we mutate the DAG below", "        dag = self.dag"))
+mutant("M61-gensym-no-increment", ["C10", "C20"], "GENSYM-1", ("cubed/core/array.py", "    global sym_counter\n    sym_counter += 1\n    return f\"{name}-{sym_counter:03}\"", "    global sym_counter\n    return f\"{name}-{sym_counter:03}\""))
+mutant("M61b-counter-reset-in-compute", ["C10", "C20"], "GENSYM-1", ("cubed/core/array.py", "    spec = check_array_specs(arrays)  # guarantees all arrays have same spec\n", "    global sym_counter\n    sym_counter = 0\n    spec = check_array_specs(arrays)  # guarantees all arrays have same spec\n"))
+mutant("M61c-name-without-counter", ["C10", "C20"], "GENSYM-1", (PLAN, "    global sym_counter\n    sym_counter += 1\n    return f\"{name}-{sym_counter:03}\"", "    global sym_counter\n    sym_counter += 1\n    return f\"{name}-001\""))
+mutant("M61d-array-named-by-caller-constant", ["C10", "C20"], "GENSYM-1", (OPS, "    name = gensym()\n    spec = check_array_specs(arrays)\n    buffer_copies = get_buffer_copies(spec)\n    if target_store is None:", "    name = \"array-out\"\n    spec = check_array_specs(arrays)\n    buffer_copies = get_buffer_copies(spec)\n    if target_store is None:"))
+mutant("M63-delete-work-dir", ["C10", "C20"], "CLEANUP-1", (PLAN, "    context_dir = join_path(work_dir, CONTEXT_ID)\n    delete_on_exit(context_dir)", "    context_dir = join_path(work_dir, CONTEXT_ID)\n    delete_on_exit(work_dir)"))
+mutant("M63b-rmtree-elsewhere", ["C10"], "CLEANUP-1", (PLAN, "    dags = [x._plan.dag for x in arrays if hasattr(x, \"_plan\")]\n", "    dags = [x._plan.dag for x in arrays if hasattr(x, \"_plan\")]\n    shutil.rmtree(tempfile.gettempdir(), ignore_errors=True)\n"))
+mutant("M63c-context-id-not-unique", ["C10", "C20"], "CLEANUP-1", (PLAN, "CONTEXT_ID = f\"cubed-{datetime.now().strftime('%Y%m%dT%H%M%S')}-{uuid.uuid4()}\"", "CONTEXT_ID = f\"cubed-{datetime.now().strftime('%Y%m%dT%H%M%S')}\""))
+mutant("M66-array-wraps-input-storage", ["C12"], "META-1", (OPS, "    return Array(name, op.target_array, spec, plan)\n\n\ndef general_blockwise(", "    return Array(name, arrays[0]._zarray, spec, plan)\n\n\ndef general_blockwise("))
+mutant("M66b-shape-from-first-input", ["C12"], "META-1", (OPS, "    shape = tuple(map(sum, _chunks))\n", "    shape = arrays[0].shape\n"))
+mutant("M66c-corearray-shape-from-plan", ["C12"], "META-1", ("cubed/core/array.py", "        self._shape = zarray.shape\n", "        self._shape = getattr(plan, 'shape', None) or zarray.shape\n        self._shape = tuple(self._shape)\n"))
+benign("B-gensym-format-first", ["C10", "C20"], ("cubed/core/array.py", "    global sym_counter\n    sym_counter += 1\n    return f\"{name}-{sym_counter:03}\"", "    global sym_counter\n    n = sym_counter + 1\n    sym_counter += 1\n    return f\"{name}-{sym_counter:03}\""))
+benign("B-fresh-op-field-set", ["C10", "C02"], (PBW, "    return PrimitiveOperation(\n        pipeline=fused_pipeline,", "    _tmp = PrimitiveOperation(\n        pipeline=fused_pipeline,\n        source_array_names=source_array_names,\n        target_array=target_array,\n        projected_mem=projected_mem,\n        allowed_mem=allowed_mem,\n        reserved_mem=reserved_mem,\n        num_tasks=num_tasks,\n    )\n    _tmp.fusable_with_predecessors = True\n    return PrimitiveOperation(\n        pipeline=fused_pipeline,"))
